@@ -12,6 +12,8 @@ def run(ctx):
     sweeps.run_sweep(ctx, "c15h", [], "C15")
     # the same sweeps under MemorySanitizer: a transition decided by memory the constructor never wrote (a table scanned
     # one cell too far, a field left out of the initialisation) is reported at the deciding branch
+    sweeps.run_sweep(ctx, "c15", [], "C15", flavour="asan-uchar", sanitizer_is_violation=True)      # plain char unsigned (ARM-class ABIs)
+    sweeps.run_sweep(ctx, "c15h", [], "C15", flavour="asan-uchar", sanitizer_is_violation=True)
     sweeps.run_sweep(ctx, "c15", [], "C15", flavour="msan", sanitizer_is_violation=True)
     sweeps.run_sweep(ctx, "c15h", [], "C15", flavour="msan", sanitizer_is_violation=True)
     rep.exhaustive = True
